@@ -78,6 +78,20 @@ func SignEntry(e *factom.Entry, salt int64, signers []int, rcde []bool, extra in
 	}
 }
 
+// MalleateSig: what any third party can do to a published entry: alter the last byte of the
+// first signature (the entry gets different bytes and a different hash). The external ids are
+// copied first so that the original entry is left as it was.
+func MalleateSig(e *factom.Entry) {
+	ext := make([]factom.Bytes, len(e.ExtIDs))
+	for i, x := range e.ExtIDs {
+		ext[i] = append(factom.Bytes{}, x...)
+	}
+	if len(ext) >= 3 && len(ext[2]) > 0 {
+		ext[2][len(ext[2])-1] ^= 0x01
+	}
+	e.ExtIDs = ext
+}
+
 // Blob encodes a decoded value as entry content (JSON natively; an opaque carrier of the
 // value under the symbolic engine, whose parse stub hands it back). Blob(nil) is content
 // that does not parse.
